@@ -648,6 +648,16 @@ func main() {
 			jobs <- job{mt, []byte("<a>" + tail), "unterminated"}
 		}
 	}
+	// JS: every kind of token as the FIRST thing the writer sees (nothing written yet: look-behind on the output must not
+	// index an empty buffer), alone and followed by a little more
+	jsFirst := []string{"/script>/", "/script>/.test(s)&&f()", "/style>/g", "/a/", "/[/]/", "`t`", "`a${b}`", "'s'", "\"d\"", "1", ".5", "1.", "0x1", "1n", "-1", "+a", "++a", "--a", "!a", "~a", "(a)", "[a]", "{}", "{a}", ";", "a", "a:b", "this", "new a", "typeof a", "void 0", "delete a.b", "in", "a in b", "function(){}", "function f(){}", "class A{}", "()=>1", "async()=>1", "await a", "yield", "...a", "<!--a", "-->a", "#!a", "//a", "/*a*/", "/**/1", "</script>", "<script>", "import a from'b'", "export{}", "return", "break", "if(a)b", "for(;;);", "@a", "\\u0061", "\u2028a", "a\u2029"}
+	for _, t := range jsFirst {
+		for _, tail := range []string{"", ";", "\n", ".x", "()", " b", "/2/g", "`t`"} {
+			jobs <- job{"application/javascript", []byte(t + tail), "first-token"}
+		}
+		jobs <- job{"text/html", []byte("<script>" + t + "</script>"), "first-token"}
+		jobs <- job{"text/html", []byte("<a onclick=\"" + strings.ReplaceAll(t, "\"", "'") + "\">x</a>"), "first-token"}
+	}
 	close(jobs)
 	wg.Wait()
 	if atomic.LoadInt32(&hangs) >= 3 {
